@@ -249,7 +249,7 @@ func flushAll() {
 	collMu.Lock()
 	defer collMu.Unlock()
 	for k, c := range collectors {
-		base := filepath.Join(outDir, fmt.Sprintf("stats.%s.%d", k, shard))
+		base := filepath.Join(outDir, fmt.Sprintf("stats.%s.%d.%d", k, shard, os.Getpid()))
 		b, _ := json.Marshal(c)
 		os.WriteFile(base+".json", b, 0o644)
 		hs := make([]uint64, 0, len(c.hashes))
